@@ -336,6 +336,11 @@ def c13_pburg(ctx, case):
     else:
         obj = spectrum.pburg(arg, p, criteria=c, **kw) if c else spectrum.pburg(arg, p, **kw)
     obj()
+    # another estimator object is created and evaluated before this one is read (two live objects in one process):
+    # each object exposes its own model
+    if N >= 8:
+        other = spectrum.pburg(np.random.default_rng(12345).standard_normal(24), 3 if p != 3 else 5)
+        other()
     ctx.check(len(obj.ar) == len(a) and len(obj.reflection) == len(k), "pburg order %d/%d vs arburg %d/%d"
               % (len(obj.ar), len(obj.reflection), len(a), len(k)))
     ctx.close(_c(obj.ar), _c(a), "pburg.ar vs arburg", rtol=1e-12, atol=1e-14)
